@@ -79,6 +79,110 @@ def rule_residual_unprec(model: Model):
     return obs
 
 
+def rule_residual_defs(model: Model):
+    """RESIDUAL-DEFS (added after seeds S5-C12-1 / S6-C12-1, the same change written twice).  The quantity that steers the rank truncation is the
+    relative residual of the *original* local system: `norm(<operator applied to the solution> - rhs) / norm_rhs`.  A local that is bound to such
+    an expression in one branch (direct solve, single precision, double precision) has to be bound to one in every branch - a value reported by
+    an iterative solver is relative to *its* right-hand side (the correction equation) and goes stale on an early exit.  Siblings must agree."""
+    import ast
+    from ..model import norm
+    from ..inline import inlined
+    f = inlined(model, model.func("solvers._amen_solve_python"))
+
+    def residual_form(v):
+        # norm(<something with a product / matvec> - <rhs>) / <norm of the rhs>
+        if not (isinstance(v, ast.BinOp) and isinstance(v.op, ast.Div)):
+            return False
+        num = v.left
+        if not (isinstance(num, ast.Call) and norm(num.func).endswith("norm")):
+            return False
+        if num.args:
+            inner = num.args[0]
+        elif isinstance(num.func, ast.Attribute):
+            inner = num.func.value            # (A x - rhs).norm()
+        else:
+            return False
+
+        def applies(e, depth=0):
+            for x in ast.walk(e):
+                if (isinstance(x, ast.Call) and isinstance(x.func, ast.Attribute) and x.func.attr == "matvec") or (isinstance(x, ast.BinOp) and isinstance(x.op, ast.MatMult)):
+                    return True
+                if isinstance(x, ast.Name) and depth < 2 and any(val is not None and applies(val, depth + 1) for _, val, _ in binds.get(x.id, [])):
+                    return True       # Ax = Op.matvec(x, False) ... norm(Ax - rhs)
+            return False
+        has_sub = any(isinstance(x, ast.BinOp) and isinstance(x.op, ast.Sub) for x in ast.walk(inner))
+        return has_sub and applies(inner)
+    binds = {}
+    for n in ast.walk(f.node):
+        if isinstance(n, ast.Assign) and len(n.targets) == 1:
+            t = n.targets[0]
+            if isinstance(t, ast.Name):
+                binds.setdefault(t.id, []).append((n, n.value, None))
+            elif isinstance(t, (ast.Tuple, ast.List)):
+                if isinstance(n.value, (ast.Tuple, ast.List)) and len(n.value.elts) == len(t.elts):
+                    for x, y in zip(t.elts, n.value.elts):
+                        if isinstance(x, ast.Name):
+                            binds.setdefault(x.id, []).append((n, y, None))
+                else:
+                    for i, x in enumerate(t.elts):
+                        if isinstance(x, ast.Name):
+                            binds.setdefault(x.id, []).append((n, None, i))      # position i of whatever the call returns
+    def blocks(node):
+        for n in ast.walk(node):
+            for fld in ("body", "orelse", "finalbody"):
+                b = getattr(n, fld, None)
+                if isinstance(b, list) and b and isinstance(b[0], ast.stmt):
+                    yield b
+
+    parent_stmt = {}
+    for b in blocks(f.node):
+        pass
+    for n in ast.walk(f.node):
+        for fld in ("body", "orelse", "finalbody"):
+            b = getattr(n, fld, None)
+            if isinstance(b, list) and b and isinstance(b[0], ast.stmt):
+                for x in b:
+                    parent_stmt[id(x)] = (n, b)
+
+    def dead(st, nm):
+        """the binding is overwritten before anything reads the name: by a later statement of its block, or - when its block ends first - of
+        the blocks around it (up to the enclosing loop)"""
+        cur = st
+        while id(cur) in parent_stmt:
+            owner, b = parent_stmt[id(cur)]
+            for later in b[b.index(cur) + 1:]:
+                rebinds = isinstance(later, ast.Assign) and any(isinstance(t, ast.Name) and t.id == nm for t in later.targets)
+                if rebinds and not any(isinstance(x, ast.Name) and x.id == nm and isinstance(x.ctx, ast.Load) for x in ast.walk(later.value)):
+                    return True
+                if any(isinstance(x, ast.Name) and x.id == nm for x in ast.walk(later)):
+                    return False
+            if not isinstance(owner, ast.If):
+                return False
+            cur = owner
+        return False
+    obs = []
+    residuals = {nm for nm, bs in binds.items() if any(v is not None and residual_form(v) for _, v, _ in bs)}
+    for nm in sorted(residuals):
+        for j, (st, v, pos) in enumerate(binds[nm]):
+            if isinstance(v, ast.Constant) and v.value is None:
+                continue        # a placeholder that is filled in later
+            if dead(st, nm):
+                continue        # overwritten before it is read
+            if v is None:
+                callee = (model.resolve(f.module, st.value.func) or norm(st.value.func)) if isinstance(st.value, ast.Call) else ""
+                if callee.rsplit(".", 1)[-1] not in ("BiCGSTAB_reset", "BiCGSTAB", "gmres_restart", "gmres"):
+                    continue    # returned by a routine this rule does not know (a helper that may well compute the true residual): no verdict
+            ok = v is not None and (residual_form(v) or (isinstance(v, ast.Name) and v.id in residuals))
+            k = f"solvers._amen_solve_python:RESIDUAL-DEFS:{nm}:{j}"
+            obs.append(Ob("RESIDUAL-DEFS", k, OK if ok else VIOLATED, model.where(f, st), norm(st)[:90],
+                          f"`{nm}` is the relative residual of the original local system here" if ok else
+                          f"`{nm}` is the relative residual of the original local system in its other definitions (norm(A x - rhs) / norm_rhs), but here it is "
+                          + ("element %d of what `%s` returns" % (pos, norm(st.value.func) if isinstance(st.value, ast.Call) else norm(st.value)[:40]) if v is None else f"`{norm(v)[:60]}`")
+                          + ": a residual reported by an iterative solver is relative to the right-hand side it was given (the correction equation) and is "
+                          "not recomputed on an early exit - the rank truncation then compares against the wrong quantity"))
+    return obs
+
+
 def check(model: Model, tier: str):
     from ..e5 import obligations as e5ob
     from ..e5.slicetype import type_body
@@ -106,6 +210,7 @@ def check(model: Model, tier: str):
         if model.has_func(fs):
             obs += rule_scale_free(model, fs)
     obs += rule_residual_unprec(model)
+    obs += rule_residual_defs(model)
     from ..normguard import rule_train_init
     obs += rule_train_init(model, "solvers._amen_solve_python")
     from ..normguard import rule_residual_gauge
